@@ -17,7 +17,12 @@ Supported (anything else makes the function `untranslatable`, which is reported)
     if let Some(p) = self.F { if A OP p { return Err(..); } } else { return Err(..); }
   COND: data.is_empty() | !x.is_finite() | x < 0.0 | !ticks_representable(x) | self.finished | self.F.is_none()
   A OP p: x <= p | x < p
-The prefix ends at the first `let scaled_…` statement.  Trusted: the condition table below (a dozen patterns),
+The prefix ends at the first `let scaled_…` statement.  What follows it — the tick conversion
+`(x * MEDIA_TIMESCALE as f64).round() as u64` (rendered `F64.ticks x`, the model's soft-float rounding), the writer call
+with `.map_err(|e| self.convert_mp4_error(e, frame_index))?`, `if self.F.is_none() { self.F = Some(x); }`,
+`self.F = Some(x);`, `self.COUNT += 1;`, `Ok(())` — is translated separately into `<name>_tail : Muxer → args → Muxer × Reply`;
+`C04_gen_*_tail` prove that whenever the translated prefix names no error the model's call IS the translated tail.
+(`write_video` calls the one-line wrapper `write_video_sample`; the translator checks it still is that wrapper.)  Trusted: the condition table below (a dozen patterns),
 `ticksRepresentable` and the `F64` comparisons of the model, and that the error payload fields do not matter for
 the *variant* (the payloads are compared by the correspondence run).
 """
@@ -111,6 +116,96 @@ def translate(name, params, src):
     ps = "".join(" (%s : %s)" % (p, TYPES[p]) for p in params)
     return ("/-- guard prefix of `Muxer::%s` (src/api.rs), translated statement by statement: the first failing guard -/\n"
             "def %s (self : Muxer)%s : Option MErr :=\n  firstSome [\n    %s]\n" % (name, name, ps, ",\n    ".join(guards)))
+
+
+MFIELD = {"first_video_pts": "firstVideoPts", "last_video_pts": "lastVideoPts", "last_video_dts": "lastVideoDts",
+          "last_audio_pts": "lastAudioPts", "video_frame_count": "vCount", "audio_frame_count": "aCount"}
+
+
+def translate_tail(name, params, src, writer_src):
+    """what the call does once every guard has passed: tick conversion, the writer call with its error conversion, and
+    the bookkeeping of an accepted frame"""
+    sig, body = find_fn(src, name)
+    stmts = []
+    for s in split_statements(body):
+        if s.strip().startswith("else") and stmts:
+            stmts[-1] = stmts[-1] + " " + s.strip()
+        else:
+            stmts.append(s)
+    stmts = [re.sub(r"\s+", " ", x.strip()).rstrip(";").strip() for x in stmts]
+    stmts = [x for x in stmts if x]
+    count = None
+    for x in stmts:
+        m = re.fullmatch(r"let frame_index = self\.(\w+)", x)
+        if m and m.group(1) in MFIELD:
+            count = MFIELD[m.group(1)]
+    k = next((i for i, x in enumerate(stmts) if re.match(r"let scaled_", x)), None)
+    if k is None or count is None:
+        raise Untranslatable("tail of %s: no `let scaled_…` / `let frame_index`" % name)
+    lines = ["  let frame_index : Nat := self.%s" % count]
+    rest = stmts[k:]
+    i = 0
+    while i < len(rest):
+        x = rest[i]
+        m = re.fullmatch(r"let scaled_(\w+) = \((\w+) \* MEDIA_TIMESCALE as f64\)\.round\(\)", x)
+        if m and i + 1 < len(rest) and m.group(1) == m.group(2):
+            m2 = re.fullmatch(r"let (\w+) = scaled_%s as u64" % m.group(1), rest[i + 1])
+            if not m2:
+                raise Untranslatable("tail: " + rest[i + 1][:60])
+            lines.append("  let %s : Nat := F64.ticks %s" % (m2.group(1), m.group(2)))
+            i += 2
+            continue
+        m = re.fullmatch(r"self ?\.writer ?\.(\w+)\(([^()]*)\) ?\.map_err\(\|e\| self\.convert_mp4_error\(e, frame_index\)\)\?", x)
+        if m:
+            args = [a.strip() for a in m.group(2).split(",")]
+            fn = m.group(1)
+            if fn == "write_video_sample":
+                # one-line wrapper in src/muxer/mp4.rs: must still be `self.write_video_sample_with_dts(pts, pts, data, is_keyframe)`
+                wsig, wbody = find_fn(writer_src, "write_video_sample")
+                if re.sub(r"\s+", "", wbody) != "self.write_video_sample_with_dts(pts,pts,data,is_keyframe)":
+                    raise Untranslatable("write_video_sample is no longer the one-line wrapper")
+                call = "self.w.writeVideo %s %s %s %s" % (args[0], args[0], args[1], args[2])
+            elif fn == "write_video_sample_with_dts" and len(args) == 4:
+                call = "self.w.writeVideo %s" % " ".join(args)
+            elif fn == "write_audio_sample" and len(args) == 2:
+                call = "self.w.writeAudio %s" % " ".join(args)
+            else:
+                raise Untranslatable("writer call: " + x[:70])
+            lines.append("  match %s with" % call)
+            lines.append("  | (w', .err e) => ({ self with w := w' }, convert_mp4_error e frame_index)")
+            lines.append("  | (w', .panic) => ({ self with w := w' }, .panic)")
+            lines.append("  | (w', .ok) =>")
+            lines.append("  let self : Muxer := { self with w := w' }")
+            i += 1
+            continue
+        m = re.fullmatch(r"if self\.(\w+)\.is_none\(\) \{ self\.(\w+) = Some\((\w+)\); \}", x)
+        if m and m.group(1) == m.group(2) and m.group(1) in MFIELD:
+            f = MFIELD[m.group(1)]
+            lines.append("  let self : Muxer := if self.%s.isNone then { self with %s := some %s } else self" % (f, f, m.group(3)))
+            i += 1
+            continue
+        m = re.fullmatch(r"self\.(\w+) = Some\((\w+)\)", x)
+        if m and m.group(1) in MFIELD:
+            lines.append("  let self : Muxer := { self with %s := some %s }" % (MFIELD[m.group(1)], m.group(2)))
+            i += 1
+            continue
+        m = re.fullmatch(r"self\.(\w+) \+= 1", x)
+        if m and m.group(1) in MFIELD:
+            f = MFIELD[m.group(1)]
+            lines.append("  let self : Muxer := { self with %s := self.%s + 1 }" % (f, f))
+            i += 1
+            continue
+        if x == "Ok(())" and i == len(rest) - 1:
+            lines.append("  (self, .ok)")
+            i += 1
+            continue
+        raise Untranslatable("tail statement of %s: %s" % (name, x[:70]))
+    if not lines[-1].endswith("(self, .ok)"):
+        raise Untranslatable("tail of %s does not end in Ok(())" % name)
+    ps = "".join(" (%s : %s)" % (q, TYPES[q]) for q in params)
+    extra = " (is_keyframe : Bool)" if name != "write_audio" else ""
+    return ("/-- `Muxer::%s` after its guards (src/api.rs), translated statement by statement -/\n"
+            "def %s_tail (self : Muxer)%s%s : Muxer × Reply :=\n%s\n" % (name, name, ps, extra, "\n".join(lines)))
 
 
 WERR = {"NonIncreasingTimestamp": ".nonIncreasingTimestamp", "FirstFrameMustBeKeyframe": ".firstFrameMustBeKeyframe",
@@ -246,6 +341,14 @@ def generate():
             msg = re.sub(r"\s+", " ", str(e))
             failed.append((name, msg))
             out.append("-- UNTRANSLATABLE %s: %s\n" % (name, msg))
+    writer_src = strip_comments(open(os.path.join(REPO, "src/muxer/mp4.rs")).read())
+    for name, params in TARGETS:
+        try:
+            out.append(translate_tail(name, params, src, writer_src))
+        except Untranslatable as e:
+            msg = re.sub(r"\s+", " ", str(e))
+            failed.append((name + "_tail", msg))
+            out.append("-- UNTRANSLATABLE %s_tail: %s\n" % (name, msg))
     text = ("import Muxide.Model.Api\n/-\n  GENERATED by tools/rs2lean_guards.py from /repo's working tree — do not edit.\n"
             "  The early-return guards at the head of the frame-writing API calls of src/api.rs.\n-/\n"
             "namespace Muxide.Generated.Guards\nopen Muxide\n\n"
@@ -264,7 +367,7 @@ def main():
             f.write(text)
     for n, e in failed:
         print("untranslatable %s: %s" % (n, e))
-    print("generated %d definitions (%d untranslatable)%s" % (len(TARGETS) + 3 - len(failed), len(failed), "" if old == text else " [file updated]"))
+    print("generated %d definitions (%d untranslatable)%s" % (2 * len(TARGETS) + 3 - len(failed), len(failed), "" if old == text else " [file updated]"))
     return 1 if failed else 0
 
 
